@@ -25,6 +25,11 @@ pub struct Gates {
     pub watchdog_ms: AtomicU64,
     /// number of times a system really had to wait for its gate
     pub waited: AtomicU64,
+    /// the systems' own completion signal: per system, the number of `run`s that have returned
+    /// *and* logged their D (incremented after the D is in the log)
+    pub done: Vec<AtomicU64>,
+    /// number of systems that are waiting at their gate right now
+    pub at_gate: AtomicU64,
 }
 impl Gates {
     pub fn new(ntags: usize, watchdog_ms: u64) -> Arc<Gates> {
@@ -33,6 +38,8 @@ impl Gates {
             watchdog_fired: AtomicBool::new(false),
             watchdog_ms: AtomicU64::new(watchdog_ms),
             waited: AtomicU64::new(0),
+            done: (0..ntags).map(|_| AtomicU64::new(0)).collect(),
+            at_gate: AtomicU64::new(0),
         })
     }
     pub fn close(&self, tag: usize, run: u64) {
@@ -63,6 +70,9 @@ impl Gates {
         let mut closed = g.closed.lock().unwrap();
         let mut waited = false;
         while closed.contains(&run) {
+            if !waited {
+                self.at_gate.fetch_add(1, SeqCst);
+            }
             waited = true;
             let left = match lim.checked_sub(t0.elapsed()) {
                 Some(l) if !l.is_zero() => l,
@@ -75,9 +85,61 @@ impl Gates {
             closed = c;
         }
         if waited {
+            self.at_gate.fetch_sub(1, SeqCst);
             self.waited.fetch_add(1, SeqCst);
         }
     }
+}
+
+/// a one-shot latch (bounded wait): keeps a pool thread occupied by a harness job so that a
+/// dispatched job stays queued behind it
+pub struct Latch {
+    open: Mutex<bool>,
+    cv: Condvar,
+}
+impl Latch {
+    pub fn new() -> Arc<Latch> {
+        Arc::new(Latch { open: Mutex::new(false), cv: Condvar::new() })
+    }
+    pub fn open(&self) {
+        *self.open.lock().unwrap() = true;
+        self.cv.notify_all();
+    }
+    /// false when the bound expired
+    pub fn wait(&self, ms: u64) -> bool {
+        let t0 = Instant::now();
+        let lim = Duration::from_millis(ms);
+        let mut o = self.open.lock().unwrap();
+        while !*o {
+            let left = match lim.checked_sub(t0.elapsed()) {
+                Some(l) if !l.is_zero() => l,
+                _ => return false,
+            };
+            let (g, _) = self.cv.wait_timeout(o, left).unwrap();
+            o = g;
+        }
+        true
+    }
+}
+
+/// the OS id of the calling thread (Linux: `/proc/thread-self` -> `<pid>/task/<tid>`); 0 = unknown
+pub fn os_tid() -> u64 {
+    std::fs::read_link("/proc/thread-self")
+        .ok()
+        .and_then(|p| p.file_name().map(|f| f.to_string_lossy().to_string()))
+        .and_then(|s| s.parse().ok())
+        .unwrap_or(0)
+}
+
+/// the scheduler state of a thread of this process: 'R' running / runnable, 'S' sleeping (parked
+/// in a futex: a blocked `recv`, an idle pool worker), 'D' …; None when it cannot be read
+pub fn thread_state(tid: u64) -> Option<char> {
+    if tid == 0 {
+        return None;
+    }
+    let s = std::fs::read_to_string(format!("/proc/self/task/{}/stat", tid)).ok()?;
+    let i = s.rfind(')')?;
+    s[i + 1..].trim_start().chars().next()
 }
 
 pub struct GSys {
@@ -103,7 +165,11 @@ impl<'a> System<'a> for GSys {
             }
         }
         sh.inside.fetch_sub(1, SeqCst);
+        let tag = d.tag;
         drop(d); // logs D
+        if let Some(c) = self.gates.done.get(tag) {
+            c.fetch_add(1, SeqCst);
+        }
     }
     fn running_time(&self) -> RunningTime {
         self.time
